@@ -58,6 +58,13 @@ CLAIMS["C12"] = (
     "DESIGN.md §2 C12",
 )
 
+CLAIMS["C13"] = (
+    "scaling-law abstract interpretation with opaque atoms (gain normalisation), closed forms (block structure), free-term interpretation of forward()",
+    "FlatFadingChannel: the coefficient generator is interpreted over the monomial domain - Rayleigh total variance 1; Rician |LOS|^2*(K+1) = K and Var(scatter)*(K+1) = 1 (unit mean-square gain, LOS/scatter = K for every K); ceil(L/T) blocks, draws of shape (batch, blocks), expansion index arange(L)//T per batch row; forward() is derived as a term: with csi and noise supplied exactly csi*x + noise with the input's shape restored on the 1-D, 2-D and >2-D paths, otherwise h = expand(generate(...)); the noise stage follows the C07 law calibrated on the faded signal. Structural/algebraic necessary conditions for all K, T, L and shapes; independence and gain statistics are not decided.",
+    "Trusted: scaling.py / terms.py transfer functions, randn unit variance, torch integer floor-division semantics.",
+    "DESIGN.md §2 C13",
+)
+
 NOT_APPLICABLE = {
     "C09": "conjunction at run time of C02/C05/C06/C10/C11/C15 over component pairings and adversarial channels; its structural preconditions (stage order, LLR polarity, label agreement, block framing) are decided under C17, C15, C05, C20 - no additional clause is visible in the shape of the code (DESIGN.md §2 C09)",
 }
